@@ -67,6 +67,13 @@ func Gen(prop, tier string, seed uint64) *kernel.Plan {
 	if thorough {
 		nAct = g.Range(1, 5)
 	}
+	if prop == "C12" {
+		// "2..16 simultaneous calls": more clients than elsewhere (plus observer, registrations, REST patches)
+		nAct = g.Range(2, 4)
+		if thorough {
+			nAct = g.Range(2, 8)
+		}
+	}
 	switch prop {
 	case "C05":
 		cfg.Oracles["conv"], cfg.Oracles["log"] = true, true
@@ -444,6 +451,12 @@ func vary(prop string, g *kernel.Rng, cfg *Config, evs []Ev) {
 			e := &es[i]
 			switch e.T {
 			case "sync", "par":
+				if prop == "C12" && g.Chance(1, 4) {
+					e.Join = g.Range(1, 2)
+					if e.S == 0 {
+						e.S = 1 + g.U64()%100000
+					}
+				}
 				if observer && g.Chance(1, 3) {
 					e.Rd = 1
 					if e.S == 0 {
